@@ -258,7 +258,7 @@ def handleOps (op : String) (args : List String) (impl : Impl) : Option Ans :=
     let inserted := a.ts == TS.UTC && b.ts != TS.UTC && inInserted iersTbl ib
     -- "measured in the time scale of the left operand after re-expressing the right operand in it":
     -- the result r is a − b′ where b′ is the value, in a's scale, of the instant b denotes
-    let sp := if !fits || inserted then noPanic impl else match impl with
+    let sp := if !fits then noPanic impl else match impl with
       | .ok [r] => (match parseDur? r with
           | some r =>
             let v := sval a.dur - sval r
@@ -268,8 +268,10 @@ def handleOps (op : String) (args : List String) (impl : Impl) : Option Ans :=
           | none => "FAIL:decode")
       | .other w => "FAIL:" ++ w
       | _ => "FAIL:decode"
+    -- (a UTC left operand cannot re-express an instant inside an inserted second: recorded finding D9b, tagged)
     pure { model := (match m with | some x => "ok " ++ showDur x | none => "unmodelled"), spec := sp,
-           branch := "ediff:" ++ a.ts.name ++ "-" ++ b.ts.name ++ (if fits then "" else ":saturating") }
+           cls := if fits && inserted then "D9b" else "-",
+           branch := "ediff:" ++ a.ts.name ++ "-" ++ b.ts.name ++ (if !fits then ":saturating" else if inserted then ":inserted" else "") }
   | "eaddf", [e, f] => do
     let e ← parseEp? e
     -- the generator only emits integer-valued doubles; decode the integer from the bits
@@ -497,7 +499,7 @@ def handleOps (op : String) (args : List String) (impl : Impl) : Option Ans :=
     let sp := if !fits then noPanic impl else match impl with
       | .ok [c1, e1, c2, e2, c3, c4, rg] =>
         verdict [("cmp", c1 == toString wc), ("eq", e1 == bool01 (wc == 0)), ("reverse_cmp", c2 == toString (-wc)),
-                 ("reverse_eq", e2 == bool01 (wc == 0)), ("left_converted", ins || c3 == toString wc), ("right_converted", ins || c4 == toString wc),
+                 ("reverse_eq", e2 == bool01 (wc == 0)), ("left_converted", c3 == toString wc), ("right_converted", c4 == toString wc),
                  -- the range is `a .. a + 1 ns`; its end is the epoch one count later IN a's SCALE (in UTC that
                  -- can be a whole inserted second later as an instant)
                  ("range_contains", sval a.dur ≥ DMAX ||
@@ -506,7 +508,10 @@ def handleOps (op : String) (args : List String) (impl : Impl) : Option Ans :=
                      | none => true))]
       | .other w => "FAIL:" ++ w
       | _ => "FAIL:decode"
-    pure { model := m, spec := sp, branch := "ecmpconv:" ++ a.ts.name ++ "," ++ b.ts.name ++ ">" ++ ts.name ++ (if !fits then ":saturating" else if ins then ":inserted" else "") }
+    -- an instant inside an inserted second has no UTC count: converting it INTO UTC moves it (recorded finding
+    -- D9b), so "preserved by converting either operand" can fail for near pairs there; such lines are tagged
+    pure { model := m, spec := sp, cls := if fits && ins then "D9b" else "-",
+           branch := "ecmpconv:" ++ a.ts.name ++ "," ++ b.ts.name ++ ">" ++ ts.name ++ (if !fits then ":saturating" else if ins then ":inserted" else "") }
   | _, _ => none
 
 /-- civil weekday (0 = Monday) of the day containing the count `v` (ns from a Monday 00:00) -/
@@ -552,6 +557,30 @@ def handleMore (op : String) (args : List String) (impl : Impl) : Option Ans :=
     pure { model := m, spec := sp, cls := tagD1 [step],
            branch := "series:" ++ (if incl then "incl" else "excl") ++ ":" ++ start.ts.name ++ "," ++ endTs.name ++ ":" ++
              (if !fitsAll then "saturating" else if vD % vs == 0 then "multiple" else "non_multiple") ++ (if n == 0 then ":empty" else if n ≥ cap then ":capped" else "") }
+  | "series_long", [incl, start, span, endTs, step] => do
+    -- millions of items: count, last item, strict increase (the model iterates too, keeping no list)
+    let start ← parseEp? start; let span ← parseDur? span; let endTs ← TS.ofString? endTs
+    let step ← parseDur? step
+    let incl := incl == "1"
+    let e0 : Ep := ⟨Dur.add start.dur span, start.ts⟩
+    let endE ← e0.to endTs
+    let dur ← Ep.diff endE start
+    let (n, last, ord) := Series.runLast 20000000 ⟨start, dur, step, 0, incl⟩ 0 none true
+    let vs := sval step
+    let vD := sval dur
+    let fitsAll := convFits start endTs && convFits e0 endTs && inRange (sval start.dur + sval span) &&
+                   inRange (sval start.dur + vD + vs)
+    let wantN : Int := if vD < 0 then 0 else if incl then vD / vs + 1 else (vD + vs - 1) / vs
+    let sp := if !fitsAll || vs ≤ 0 then noPanic impl else match impl with
+      | .ok [cnt, lastS, o] =>
+        let wlast := if wantN == 0 then "-" else showEp ⟨Dur.fromTotal (sval start.dur + (wantN - 1) * vs), start.ts⟩
+        verdict [("count", cnt == toString wantN), ("last_item", lastS == wlast), ("increasing", o == "1")]
+      | .other w => "FAIL:" ++ w
+      | _ => "FAIL:decode"
+    pure { model := "ok " ++ toString n ++ " " ++ (match last with | some l => showEp l | none => "-") ++ " " ++ bool01 ord,
+           spec := sp,
+           branch := "series_long:" ++ (if incl then "incl" else "excl") ++ ":" ++ start.ts.name ++ "," ++ endTs.name ++ ":" ++
+             (if n ≥ 1000000 then "1e6+" else if n ≥ 100000 then "1e5+" else "short") }
   -- ---------------------------------------------------------------- C16
   | "weekday", [e] | "weekday_utc", [e] | "weekday_ts", [e, _] => do
     let e ← parseEp? e
